@@ -1,0 +1,74 @@
+//go:build verif
+
+package as
+
+// Contracts for package as, checked by /verif/govc.  Comment-only file.
+//
+// Every position has its own type parameter.  Labelled families need fp.Named type
+// arguments: they are verified at the pairwise distinct types fp.RuntimeNamed[VT_i].
+
+//@ import "github.com/csgura/fp"
+//@ import "github.com/csgura/fp/hlist"
+//
+// ---- function families (func_gen.go, as.go), arities 1..9 --------------------------------
+//
+//   Func{N}(f)(a1, …, aN)          = f(a1, …, aN)      (a conversion: Func{N}(f) is f)
+//   Supplier{N}(f, a1, …, aN)()    = f(a1, …, aN)      (f is not called before the supplier is)
+//@ schema N=1..9
+//@ lemma func{N}Def[<<i=1..N|, |A$i>>, R any](f func(<<i=1..N|, |A$i>>) R, <<i=1..N|, |a$i A$i>>)
+//@   prop C14
+//@   ensures EqT(Func{N}(f)(<<i=1..N|, |a$i>>), f(<<i=1..N|, |a$i>>))
+//@   ensures Eq(Func{N}(f), fp.Func{N}[<<i=1..N|, |A$i>>, R](f))
+//
+//@ func Supplier{N}(f, <<i=1..N|, |a$i>>) result
+//@   prop C14
+//@   ensures NoCalls()
+//@   ensures EqT(result(), f(<<i=1..N|, |a$i>>))
+//@ schema end
+//
+//   Curried{N}(f)(a1)…(aN)         = f(a1, …, aN)
+//   UnTupled{N}(g)(a1, …, aN)      = g((a1, …, aN))
+//@ schema N=2..9
+//@ lemma curried{N}Def[<<i=1..N|, |A$i>>, R any](f func(<<i=1..N|, |A$i>>) R, g func(fp.Tuple{N}[<<i=1..N|, |A$i>>]) R, <<i=1..N|, |a$i A$i>>)
+//@   prop C14
+//@   ensures EqT(Curried{N}(f)<<i=1..N||(a$i)>>, f(<<i=1..N|, |a$i>>))
+//@   ensures EqT(UnTupled{N}(g)(<<i=1..N|, |a$i>>), g(fp.Tuple{N}[<<i=1..N|, |A$i>>]{<<i=1..N|, |I$i: a$i>>}))
+//@ schema end
+//
+//   Tupled2(f)((a1, a2)) = f(a1, a2);  Tupled2 and UnTupled2 are mutually inverse
+//@ lemma tupled2Def[A1, A2, R any](f fp.Func2[A1, A2, R], g func(fp.Tuple2[A1, A2]) R, t fp.Tuple2[A1, A2], a1 A1, a2 A2)
+//@   prop C14
+//@   ensures EqT(Tupled2(f)(t), f(t.I1, t.I2))
+//@   ensures EqT(UnTupled2(Tupled2(f))(a1, a2), f(a1, a2))
+//@   ensures EqT(Tupled2(UnTupled2(g))(t), g(t))
+//
+//   Func0(f)(unit) = f();  Supplier(v)() = v
+//@ lemma func0Def[R any](f func() R, v R)
+//@   prop C14
+//@   ensures EqT(Func0(f)(fp.Unit{}), f())
+//@   ensures Eq(Supplier(v)(), v)
+//
+// ---- product families (tuple_gen.go, labelled_gen.go), arities 1..21 ---------------------
+//
+//   Tuple{N}(a1, …, aN)            = (a1, …, aN)
+//   HList{N}((a1, …, aN))          = a1 :: … :: aN :: Nil
+//   Labelled{N}(a1, …, aN)         = (a1, …, aN)
+//   HList{N}Labelled((a1, …, aN))  = a1 :: … :: aN :: Nil
+//@ lemma tupleDef[K, V any](k K, v V)
+//@   prop C14
+//@   ensures Eq(Tuple(k, v), fp.Tuple2[K, V]{I1: k, I2: v})
+//
+//@ schema N=1..21
+//@ lemma tuple{N}Def[<<i=1..N|, |A$i>> any](<<i=1..N|, |a$i A$i>>, t fp.Tuple{N}[<<i=1..N|, |A$i>>])
+//@   prop C14
+//@   ensures Eq(Tuple{N}(<<i=1..N|, |a$i>>), fp.Tuple{N}[<<i=1..N|, |A$i>>]{<<i=1..N|, |I$i: a$i>>})
+//@   ensures Eq(HList{N}(t), <<i=1..N||hlist.Concat(t.I$i, >>hlist.Empty()<<i=1..N||)>>)
+//@   ensures Eq(HList{N}(Tuple{N}(<<i=1..N|, |a$i>>)), hlist.Of{N}(<<i=1..N|, |a$i>>))
+//
+//@ lemma labelled{N}Def[<<i=1..N|, |A$i>> fp.Named](<<i=1..N|, |a$i A$i>>, t fp.Labelled{N}[<<i=1..N|, |A$i>>])
+//@   prop C14
+//@   inst <<i=1..N|, |fp.RuntimeNamed[VT_$i]>>
+//@   ensures Eq(Labelled{N}(<<i=1..N|, |a$i>>), fp.Labelled{N}[<<i=1..N|, |A$i>>]{<<i=1..N|, |I$i: a$i>>})
+//@   ensures Eq(HList{N}Labelled(t), <<i=1..N||hlist.Concat(t.I$i, >>hlist.Empty()<<i=1..N||)>>)
+//@   ensures Eq(HList{N}Labelled(Labelled{N}(<<i=1..N|, |a$i>>)), hlist.Of{N}(<<i=1..N|, |a$i>>))
+//@ schema end
